@@ -253,7 +253,20 @@ func (cc *checkCtx) discharge(quiet bool) {
 			sem <- struct{}{}
 			defer func() { <-sem }()
 			q := o.Query(true)
-			r := Solve(q, cc.timeout, cc.seed, nil)
+			var r SolverResult
+			if o.Expect == Unsat && o.HasHeavy() {
+				// first attempt without the heavy library axioms (sound: fewer assumptions)
+				lt := cc.timeout / 3
+				if lt < 5 {
+					lt = 5
+				}
+				r = Solve(o.QueryMode(false, true), lt, cc.seed, nil)
+				if r.Answer != Unsat {
+					r = Solve(q, cc.timeout, cc.seed, nil)
+				}
+			} else {
+				r = Solve(q, cc.timeout, cc.seed, nil)
+			}
 			results[i] = r
 			reports[i] = OblReport{Name: o.Name, Kind: o.Kind, Func: o.Func, Pos: o.Pos, Note: o.Note, Answer: r.Answer.String(), Backend: r.Backend,
 				Seconds: r.Seconds, Expected: o.Expect.String(), OK: r.Answer == o.Expect, Theory: o.vc.Mode, Bytes: len(q)}
